@@ -19,7 +19,7 @@ var c02Dst = []string{"CONFIGURED", "RUNNING", "CONFIGURED", "DEPLOYED"}
 var c02States = []string{"STANDBY", "DEPLOYED", "CONFIGURED", "RUNNING", "ERROR"}
 
 // One ControlEnvironment request through the real RPC handler, for every request type and every state of the
-// environment, the task manager answering the task part with an arbitrary verdict (and the GO_ERROR the handler
+// environment, with the caller still there or already gone (context cancelled), the task manager answering the task part with an arbitrary verdict (and the GO_ERROR the handler
 // falls back to with another one):
 //   - a legal request whose critical task acknowledged: no error, the reply reports the destination state;
 //   - a legal request whose critical task did not acknowledge: the request returns an error, the destination is
@@ -38,7 +38,12 @@ func HarnessControlEnvironmentRequest() {
 		return goErrorFails
 	})
 	srv := &RpcServer{state: &globalState{environments: w.Envs, taskman: w.Taskman}}
-	reply, err := srv.ControlEnvironment(context.Background(), &pb.ControlEnvironmentRequest{Id: w.Env.Id().String(), Type: c02Types[ev]})
+	ctx, cancel := context.WithCancel(context.Background())
+	defer cancel()
+	if vrt.Bool("caller.is.gone") { // the client's deadline expired (or it disconnected) while the request was waiting or running
+		cancel()
+	}
+	reply, err := srv.ControlEnvironment(ctx, &pb.ControlEnvironmentRequest{Id: w.Env.Id().String(), Type: c02Types[ev]})
 	legal := state == c02Src[ev]
 	switch {
 	case legal && !taskFails:
